@@ -17,6 +17,7 @@ var props = map[string]propCfg{
 	"C18": {engine: "codec", gen: true, level: "exploration", qShards: 8, tShards: 16, assume: codecAssume},
 	"C20": {engine: "codec", gen: true, level: "exploration", qShards: 8, tShards: 16, assume: codecAssume},
 	"C04": {engine: "bus", gen: true, race: true, level: "exploration", qShards: 12, tShards: 16, assume: busAssume},
+	"C05": {engine: "codegen", gen: true, level: "exploration", qShards: 4, tShards: 16, assume: []string{"implementors and drivers are derived from the generated code's own interface declarations (go/ast), so they add no naming assumptions of their own", "values are filled by reflection from the Go types the generator chose; NaN is not generated"}},
 	"C06": {engine: "bus", gen: true, race: true, level: "exploration", qShards: 12, tShards: 16, assume: busAssume},
 	"C10": {engine: "bus", gen: true, race: true, level: "exploration", qShards: 6, tShards: 16, qTimeout: 8 * time.Minute, assume: busAssume},
 	"C11": {engine: "bus", gen: true, race: true, level: "fault_enumeration", qShards: 12, tShards: 16, assume: busAssume},
